@@ -3,7 +3,7 @@
 (* node of every model tree the harness dumped (IOEnv.TREES, one line per   *)
 (* model), and pairs of faults on disjoint subtrees for the small models.   *)
 EXTENDS XmlTree, TLC, Json, IOUtils
-CONSTANT Pairs, PairLimit
+CONSTANT Pairs, PairLimit, RuleLimit
 Trees == ndJsonDeserialize(IOEnv.TREES)
 
 VARIABLE c
@@ -16,6 +16,18 @@ Double == Pairs /\ \E m \in 1..Len(Trees) : Len(Trees[m].nodes) <= PairLimit /\
               /\ Disjoint(Trees[m].nodes, f1, n1, f2, n2)
               /\ (Trees[m].nodes[n1].ref \/ Trees[m].nodes[n2].ref \/ (f1 = "del" /\ f2 = "del"))     \* pairs that can close a cycle or remove two parts
               /\ c = [m |-> m, ops |-> <<[f |-> f1, n |-> n1], [f |-> f2, n |-> n2]>>]
-Init == (Single \/ Double) /\ PrintT(<<"CASE", ToJson(c)>>)
+\* two faults among the entries of one rule, or among the clauses of one table, whatever the size of the model: a
+\* surplus on one side next to a gap on the other leaves the totals right ("rules whose number of entries disagrees
+\* with the table's clauses")
+Counted == {"inputEntry", "outputEntry", "input", "output"}
+SameParent(nodes, n1, n2) == nodes[n1].d = nodes[n2].d /\ \A j \in n1..n2 : nodes[j].d >= nodes[n1].d
+Compensating == \E m \in 1..Len(Trees) : Len(Trees[m].nodes) <= RuleLimit /\
+            \E n1 \in 1..Len(Trees[m].nodes) : Trees[m].nodes[n1].k = "e" /\ Trees[m].nodes[n1].nm \in Counted /\
+            \E n2 \in (n1 + 1)..Len(Trees[m].nodes) : Trees[m].nodes[n2].k = "e" /\ Trees[m].nodes[n2].nm \in Counted /\
+              /\ n2 <= n1 + 40 /\ SameParent(Trees[m].nodes, n1, n2) /\ Trees[m].nodes[n1].nm # Trees[m].nodes[n2].nm
+              /\ \E f1 \in {"del", "dup"} : \E f2 \in {"del", "dup"} : f1 # f2
+                    /\ Disjoint(Trees[m].nodes, f1, n1, f2, n2)
+                    /\ c = [m |-> m, ops |-> <<[f |-> f1, n |-> n1], [f |-> f2, n |-> n2]>>]
+Init == (Single \/ Double \/ Compensating) /\ PrintT(<<"CASE", ToJson(c)>>)
 Next == FALSE /\ c' = c
 =============================================================================
